@@ -857,14 +857,15 @@ void WaveletBasisMatrix::solve(const double b[], double x[]) const{
             else
                 reconstructKrylov(inner_itr, max_inner, num_rows, W, H, Z, x);
 
-            if (transpose)
-                applyILU<transpose>(x);
-
         }
 
         outer_res = inner_res;
         outer_itr++;
     }
+    // the transposed system is preconditioned from the right: up to here x holds the unknown of the preconditioned system (a restart
+    // continues from it), the solution of the original system is obtained once, at the end
+    if (transpose)
+        applyILU<transpose>(x);
 }
 
 } /* namespace TasSparse */
